@@ -16,10 +16,12 @@ OBVIOUS_REDIRECTS_RE = re.compile(
     % r"(?:redirect(?:_to)?|target|redir|next|link|orig|goto|url|[luq])",
     re.I,
 )
+# NOTE: the redirecting host can be written in any case and with a port
 REDIRECTION_DOMAINS_RE = re.compile(
-    r"(?:\.ampproject\.org/[cv]/(?:s/)?|bc\.marfeelcache\.com/amp/|bc\.marfeel\.com/)",
+    r"(?:\.ampproject\.org(?::\d*)?/[cv]/(?:s/)?|bc\.marfeelcache\.com(?::\d*)?/amp/|bc\.marfeel\.com(?::\d*)?/)",
     re.I,
 )
+YOUTUBE_REDIRECTION_RE = re.compile(r"youtube\.com(?::\d*)?/redirect\?", re.I)
 
 
 def infer_redirection(url, recursive=True):
@@ -89,7 +91,7 @@ def infer_redirection_step(url):
                     target = None
 
             # Idiotic youtube redirections
-            elif "youtube.com/redirect?" in url:
+            elif YOUTUBE_REDIRECTION_RE.search(url):
                 target = "https://" + potential_target
 
     # NOTE: a genuine target is embedded in the url, hence strictly shorter.
